@@ -181,6 +181,54 @@ class BadIter:
         return f"BadIter({self.vals!r}, raises_at={self.k})"
 
 
+def keys_long(n):
+    """designated key grid for long vectors (size thresholds)"""
+    ks = [("int", i) for i in (0, 1, n // 2, n - 1, -1, -n, n, -n - 1)]
+    for a in (None, 0, 1, n // 2, n - 1, n, -1, -n):
+        for b in (None, 0, n // 2, n, -1, n + 3):
+            for st in (None, 1, 2, 3, -1):
+                ks.append(("slice", (a, b, st)))
+    pats = [[i % 2 == 0 for i in range(n)], [i < n // 2 for i in range(n)], [i == n - 1 for i in range(n)], [False] * n, [True] * n]
+    for bits in pats:
+        ks.append(("mask-list", tuple(bits)))
+        ks.append(("mask-vector", tuple(bits)))
+    ks.append(("mask-list", tuple(pats[0][:-1])))
+    ks.append(("mask-vector", tuple(pats[0] + [True])))
+    for tup in ((0, n - 1), (-1, -n), (n // 2, n // 2), (0, n), tuple(range(0, n, 4)), tuple(range(n - 1, -1, -1))):
+        ks.append(("idx-list", tup))
+        ks.append(("idx-vector", tup))
+        ks.append(("idx-tuple", tup))
+    return ks
+
+
+def value_forms_long(kind, m, same):
+    """reduced value menu for keys that select many positions: the special value first / in the middle / last"""
+    out = [("scalar", s) for s in SCALARS]
+    wider = {"bool": 7, "int": 7.5, "float": 7j, "complex": None, "str": None, "date": T3, "datetime": None, "object": None}[kind]
+    incompat = {"bool": "z", "int": "z", "float": "z", "complex": "z", "str": 7, "date": 7, "datetime": "z", "object": None}[kind]
+    cyc = (list(same) * (m // max(len(same), 1) + 2))
+    seqs = [cyc[:m], cyc[:m + 1]] + ([cyc[:m - 1]] if m else [])
+    for pos in sorted({0, m // 2, m - 1} if m else set()):
+        for special in (wider, incompat, "NONE"):
+            if special is None:
+                continue
+            s_ = list(cyc[:m])
+            s_[pos] = None if special == "NONE" else special
+            seqs.append(s_)
+    if m >= 2 and wider is not None and incompat is not None:
+        s_ = list(cyc[:m]); s_[0] = wider; s_[m - 1] = incompat
+        seqs.append(s_)
+    for s_ in seqs:
+        for form in ("list", "vector"):
+            if form == "vector" and not s_:
+                continue
+            out.append(("seq", form, s_))
+    for k in sorted({0, m // 2, m}):
+        out.append(("fault", "baditer", (cyc[:m], k)))
+    out.append(("fault", "generator", cyc[:m]))
+    return out
+
+
 def value_forms(kind, m, same):
     """Value descriptions for a key selecting m positions.  ('scalar', v) | ('seq', form, [vals]) | ('fault', name, payload)"""
     out = [("scalar", s) for s in SCALARS]
@@ -277,9 +325,10 @@ def fp_fresh(values):
 def unit_vector(unit):
     from serif import Vector
     from serif.errors import SerifTypeError
-    _, kname, nullable, n = unit
+    _, kname, nullable, n = unit[:4]
+    long_ = len(unit) > 4
     agg = Agg()
-    base = list(BASE[kname][:n])
+    base = list(BASE[kname][:n]) if not long_ else [BASE[kname][i % 4] for i in range(n)]
     if nullable and n:
         base[-1] = None
     if nullable and not n:
@@ -288,12 +337,12 @@ def unit_vector(unit):
     kind = probe.kind if probe is not None else None
     nullable = bool(probe.nullable) if probe is not None else False
     same = [x for x in BASE[kname] if x is not None] or [1]
-    keys = keys_for(n)
-    d = {"kind": kname, "values": base, "nullable": nullable}
+    keys = keys_for(n) if not long_ else keys_long(n)
+    d = {"kind": kname, "values": base if not long_ else base[:4] + ["... cycled"], "len": n, "nullable": nullable}
     for kdesc in keys:
         pos = resolve_key(kdesc, n)
         m = len(pos) if isinstance(pos, list) else 1
-        for vd in value_forms(kname, m, same):
+        for vd in (value_forms if not long_ else value_forms_long)(kname, m, same):
             exp = expected(base, kind, nullable, kdesc, vd)
             if exp[0] in ("unspecified", "seq-as-element"):
                 agg.skipped[exp[0]] += 1
@@ -794,6 +843,7 @@ def run_unit(unit):
 def check(ctx):
     N = ctx.pick(3, 4)
     units = [("vec", k, nl, n) for k in BASE for nl in (False, True) for n in range(0, N + 1)]
+    units += [("vec", k, nl, n, "long") for k in BASE if k != "object" for nl in (False, True) for n in (17, 33, 65)]
     units += [("tab",)] + [("ren", w) for w in (1, 2, 3)]
     agg = core.merge_all(core.pmap(run_unit, units))
     agg.notes["bound"] = f"vectors len<={N}; tables 2 rows x <=3 cols; rename lists len<=3"
